@@ -205,7 +205,9 @@ func AssertionElement(a *AssertionSpec) *etree.Element {
 	}
 	el.CreateAttr("Version", v)
 	el.CreateAttr("ID", a.ID)
-	el.CreateAttr("IssueInstant", a.IssueInstant)
+	if a.IssueInstant != "-" { // "-" = no IssueInstant attribute at all
+		el.CreateAttr("IssueInstant", a.IssueInstant)
+	}
 	if a.Issuer != nil {
 		el.AddChild(issuerEl(*a.Issuer, a.IssuerFormat))
 	}
@@ -406,7 +408,9 @@ func ResponseElement(r *ResponseSpec) (*etree.Element, error) {
 		v = *r.Version
 	}
 	el.CreateAttr("Version", v)
-	el.CreateAttr("IssueInstant", r.IssueInstant)
+	if r.IssueInstant != "-" { // "-" = no IssueInstant attribute at all
+		el.CreateAttr("IssueInstant", r.IssueInstant)
+	}
 	setAttr(el, "Destination", r.Destination)
 	if r.Issuer != nil {
 		el.AddChild(issuerEl(*r.Issuer, r.IssuerFormat))
@@ -471,7 +475,9 @@ func BuildArtifact(a *ArtifactSpec, response *etree.Element) (*etree.Element, er
 	ar.CreateAttr("ID", a.ID)
 	setAttr(ar, "InResponseTo", a.InResponseTo)
 	ar.CreateAttr("Version", "2.0")
-	ar.CreateAttr("IssueInstant", a.IssueInstant)
+	if a.IssueInstant != "-" { // "-" = no IssueInstant attribute at all
+		ar.CreateAttr("IssueInstant", a.IssueInstant)
+	}
 	if a.Issuer != nil {
 		ar.AddChild(issuerEl(*a.Issuer, a.IssuerFormat))
 	}
@@ -505,7 +511,9 @@ func BuildLogout(l *LogoutSpec) (*etree.Element, error) {
 		v = *l.Version
 	}
 	el.CreateAttr("Version", v)
-	el.CreateAttr("IssueInstant", l.IssueInstant)
+	if l.IssueInstant != "-" { // "-" = no IssueInstant attribute at all
+		el.CreateAttr("IssueInstant", l.IssueInstant)
+	}
 	setAttr(el, "Destination", l.Destination)
 	if l.Issuer != nil {
 		el.AddChild(issuerEl(*l.Issuer, l.IssuerFormat))
